@@ -482,6 +482,7 @@ void run(const Json& plan)
         steps.push_back(st);
         auto cl = std::make_shared<actors::Client>(static_cast<int>(i), port, steps);
         cl->custom_net = true;
+        cl->parse_http = false;
         cl->from_server = net_from(c.get("net"));
         cl->to_server = simk::NetParams();
         cl->to_server.latency_ns = cl->from_server.latency_ns;
